@@ -9,3 +9,6 @@ import TsVerif.C02.Props
 #print axioms TsVerif.C02.has_error_iff_partial
 #print axioms TsVerif.C02.has_error_fixed_iff
 #print axioms TsVerif.C02.has_error_full_false
+#print axioms TsVerif.C02.extentOf_snoc
+#print axioms TsVerif.C02.yields_total
+#print axioms TsVerif.C02.rowcol_by_newlines
